@@ -20,13 +20,24 @@ RULE = ("every boolean mask (2^(H*W), all-masked excluded at class level) of eve
         "and twice; one Mask2D followed through in-place edits mask[y, x] = b / copy() / with_new_array / invert(), re-reading "
         "derive_indexes.native_for_slim / unmasked_slim / masked_slim and Array2D(values, mask).slim / .native after every step; "
         "values scaled by 2**-40 / 2**40 (exact), value streams containing exact zeros; the caller's arrays are re-read after "
-        "the calls. Non-trivial = mask has both masked and unmasked pixels; distinct = distinct JSON input.")
+        "the calls. Phase 3: sibling util functions (grid / complex / via-indexes / convert_*_to_slim / _to_native / 1-D variants, "
+        "Fortran-ordered and negative-stride arrays), Kernel2D, classmethod constructors (no_mask / full / ones / zeros of all six "
+        "classes), apply_mask of fresh and derived objects on every pair of masks, the grid argument of a vector field in its own "
+        "form, Mask1D histories, several masks in a row inside ONE case (same shape + same count, same bits under another shape, "
+        "the first mask again; the same ndarray objects overwritten in place), entry forms: subclass instances, masks built from "
+        "masks, anisotropic pixel scales + origin, float32 / bool / non-contiguous arrays; every argument (lists, arrays, "
+        "structures, masks, grids) fingerprinted before and after the call; directed masks with a dimension / flat index / slim "
+        "index beyond 256. Non-trivial = mask has both masked and unmasked pixels; distinct = distinct JSON input.")
 EXHAUSTIVE = {
     "quick": "util level: all masks of all shapes with H*W <= 10; class level: all masks with >=1 unmasked pixel, H*W <= 8, "
              "4 (input form, store_native) modes rotating over Array2D/Grid2D/VectorYX2D; 1-D: all masks of length <= 8; "
              "histories: one object history and one mask history per mask with >=1 unmasked pixel and H*W <= 6, for H*W in {7, 8} one "
-             "third of the masks gets an object history and one third a mask history; 1-D: one object history per mask of length <= 8",
-    "thorough": "util level: H*W <= 14; class level: H*W <= 12; 1-D: length <= 12; histories: two per mask, H*W <= 10 (1-D: length <= 10)",
+             "third of the masks gets an object history and one third a mask history; 1-D: one object history per mask of length <= 8; "
+             "phase 3: sibling util functions on all masks with H*W <= 5 (every fourth with H*W = 6); apply_mask on every pair of masks "
+             "(>= 1 unmasked pixel each) with H*W <= 3 and every pair of 2x2 masks; Mask1D histories for every mask of length <= 5; "
+             "no_mask / full / ones / zeros for every shape up to 3x3",
+    "thorough": "util level: H*W <= 14; class level: H*W <= 12; 1-D: length <= 12; histories: two per mask, H*W <= 10 (1-D: length <= 10); "
+                "phase 3: sibling util functions H*W <= 7; apply_mask on every pair with H*W <= 4; Mask1D histories length <= 8",
 }
 TRUSTED = ["hand-written Gallina model coq/Model/C01.v of array_2d_util / grid_2d_util / array_1d_util / mask_2d_util / mask_1d_util "
            "conversion loops, of the .slim / .native accessors (re-construction from the object's current stored array) and of the "
@@ -36,9 +47,13 @@ TRUSTED = ["hand-written Gallina model coq/Model/C01.v of array_2d_util / grid_2
            "values are modelled polymorphically: the code performs no arithmetic on them except zeroing the masked entries of a "
            "native input (assignment of 0; inf / NaN at masked entries are part of the input streams)",
            "Python-level relations (py_ok): every reading taken twice, objects re-read at the end of a history, the caller's arrays "
-           "compared with copies taken before the call, `.array` of a constructed object = the form it was asked to store"]
+           "compared with copies taken before the call, `.array` of a constructed object = the form it was asked to store, "
+           "fingerprints (type, dtype, contents, pixel scales, origin) of every argument before / after the call, .y / .x of a vector "
+           "field = the planes of its readings, native_skip_mask of a slim-stored array = .native",
+           "the real / imaginary parts of the complex util variants are judged as two real planes; 1-D util results as one-row grids "
+           "(theorems C01_1d_*_is_one_row)"]
 ASSUMPTIONS = ["values at UNMASKED pixels are finite reals (inf / NaN only at masked entries)",
-               "complex / over-sampled variants are not modelled",
+               "complex CLASS-level inputs and over-sampled variants are not modelled (the complex util functions are covered)",
                "default configuration (general.structures.native_binned_only = false)"]
 
 def shapes_upto(n):
@@ -170,18 +185,18 @@ def gen_phase3(tier, rng):
     one case, Mask1D histories, directed large masks (an index does not fit 8 bits)"""
     big = tier == "thorough"
     i = 0
-    # ---- sibling util functions: every mask with H*W <= 5 and every third mask with H*W = 6 [every mask with H*W <= 9]
-    for (h, w) in shapes_upto(9 if big else 6):
+    # ---- sibling util functions: every mask with H*W <= 5 and every fourth mask with H*W = 6 [every mask with H*W <= 7]
+    for (h, w) in shapes_upto(7 if big else 6):
         for m in all_masks(h, w):
             i += 1
-            if big or h * w <= 5 or i % 3 == 0: yield {"op": "util2", "m": m, "k": i % 4}
+            if big or h * w <= 5 or i % 4 == 0: yield {"op": "util2", "m": m, "k": i % 4}
     for _ in range(300 if big else 25):
         h, w = rng.randint(1, 9), rng.randint(1, 9)
         yield {"op": "util2", "m": rand_mask(rng, h, w), "k": rng.randrange(4)}
     # ---- several masks in a row inside one case: same shape + same count, same bits under another shape, then the first again
     for (h, w) in shapes_upto(12 if big else 8):
         if h * w < 2: continue
-        for j in range(12 if big else 5):
+        for j in range(8 if big else 3):
             i += 1
             m1 = rand_mask(rng, h, w, rng.choice([0.3, 0.5, 0.6]))
             ms = [m1, shuffled(m1, rng), reshaped(m1, rng), [list(r) for r in m1]]
@@ -236,7 +251,7 @@ def gen_phase3(tier, rng):
         yield {"op": "apply", "cls": ["array", "vector", "array", "kernel"][i % 4], "m": a, "m2": b, "ni": bool((i >> 2) & 1), "sn": bool((i >> 3) & 1),
                "k": (i >> 4) % 4, "e": SCALES[(i >> 6) % 4], "nf": (i // 5) % 3 == 0, "mt": MFORMS[i % 9], "mt2": MFORMS[(i // 9) % 9], "pre": [0, 5, -3][i % 3]}
     # ---- Mask1D histories: every mask of length <= 6 [9]
-    for n in range(1, (10 if big else 7)):
+    for n in range(1, (9 if big else 6)):
         for bits in itertools.product([False, True], repeat=n):
             if all(bits): continue
             yield {"op": "maskhist1", "r": list(bits), "ops": gen_mops1(rng, list(bits))}
@@ -274,7 +289,7 @@ def gen_base(tier, rng):
                    "mt": (i // 3) % 4, "vt": (i // 5) % 4, "nf": (i // 7) % 3 == 0}
             if big or i % 5 == 0:
                 yield {"op": "array", "m": m, "ni": not bool(i & 1), "sn": not bool(i & 2), "k": 1}
-            if big or i % 3 == 0:
+            if i % 3 == 0:
                 # phase 3: further entry forms (subclass instances, masks built from masks, anisotropic pixel scales + origin,
                 # non-contiguous / float32 / bool arrays), Kernel2D, the vector field's grid in its own form
                 j = i // 3
@@ -288,7 +303,7 @@ def gen_base(tier, rng):
             yield {"op": "array1d" if i % 3 else "grid1d", "r": list(bits), "ni": bool(i & 1), "sn": bool(i & 2), "e": SCALES[(i >> 2) % 4],
                    "mt": (i // 3) % 4, "vt": (i // 5) % 4, "nf": (i // 7) % 3 == 0}
             yield {"op": "array1d", "r": list(bits), "ni": not bool(i & 1), "sn": bool(i & 4)}
-            if big or i % 3 == 0:
+            if i % 3 == 0:
                 j = i // 3
                 yield {"op": "array1d" if j % 2 else "grid1d", "r": list(bits), "ni": bool(j & 1), "sn": bool(j & 2), "k": [5, 0][j % 2],
                        "e": SCALES[(j >> 3) % 4], "mt": 4 + (j // 3) % 4, "vt": 4 + (j // 5) % 4, "nf": (j // 7) % 3 == 0}
@@ -307,7 +322,7 @@ def gen_base(tier, rng):
                     yield {"op": "hist", "cls": cls, "m": m, "ni": rng.random() < 0.5, "sn": sn, "k": rng.randrange(4), "e": rng.choice(SCALES),
                            "mt": rng.choice(MFORMS), "vt": rng.choice(VFORMS), "ops": gen_ops(rng, m, sn, cls in ("grid", "vector"))}
                 if both or i % 3 == 1:
-                    yield {"op": "maskhist", "m": m, "ops": gen_mops(rng, m), "all_classes": big}
+                    yield {"op": "maskhist", "m": m, "ops": gen_mops(rng, m), "all_classes": False}
     for n in range(1, nh + 1):
         for bits in itertools.product([False, True], repeat=n):
             if all(bits): continue
@@ -328,7 +343,7 @@ def gen_base(tier, rng):
         sn = rng.random() < 0.6; cls = rng.choice(hk)
         yield {"op": "hist", "cls": cls, "m": m, "ni": rng.random() < 0.5, "sn": sn, "k": rng.randint(0, 3), "e": rng.choice(SCALES),
                "mt": rng.choice(MFORMS), "vt": rng.choice(VFORMS), "ops": gen_ops(rng, m, sn, cls in ("grid", "vector"))}
-        yield {"op": "maskhist", "m": m, "ops": gen_mops(rng, m), "all_classes": big}
+        yield {"op": "maskhist", "m": m, "ops": gen_mops(rng, m), "all_classes": False}
 
 def cmask(m): return clist([clist([cbool(b) for b in r]) for r in m])
 def cgrid(g): return clist([clist([cz(v) for v in r]) for r in g])
